@@ -3,22 +3,45 @@
 // Rank barrier: deterministic enumeration of the completion orders of the
 // check goroutines that the pipeline runs in parallel.
 //
-// The pipeline starts one goroutine per check state of a group and waits for
-// all of them. Every scripted check calls barrier.hook before it returns its
-// result. A coordinator goroutine, started by the driver around every pipeline
-// call, waits until ALL live check goroutines of the group are parked in the
-// hook (number of parked calls == number of goroutines above the base line
-// measured before the call, stable over a number of scheduler yields), then
-// releases them one at a time in rank order and waits for the released
-// goroutine to EXIT (result merged, wg.Done called) before it releases the
-// next one. The order in which results are merged is therefore exactly the
-// rank order - no timing involved. If the goroutine accounting does not settle
-// (never seen so far; would mean some unrelated goroutine came or went), the
-// coordinator releases in rank order anyway and the run is counted in
-// `barrier_fallbacks`: that affects which order was exercised, never a verdict.
+// The pipeline starts one goroutine per check state of a group and (in the
+// unchanged tree) waits for all of them. Every scripted check calls
+// barrier.hook before it returns its result and parks there. A coordinator
+// goroutine, started by the driver around every pipeline call, waits until the
+// process is QUIESCENT - at least one call is parked and no goroutine other
+// than the coordinator itself is running or runnable (goroutine states are
+// read from runtime.Stack; a blocked goroutine cannot make progress before
+// somebody is released, there are no timers or sockets in these pipelines) -,
+// then releases the parked calls one at a time in rank order and waits for
+// quiescence again (or for the pipeline call to return) before it releases the
+// next one. The order in which results are produced and merged is therefore
+// exactly the rank order - no timing involved, and no assumption about how
+// many goroutines the runner uses (helper goroutines, worker pools, a
+// collector goroutine are all fine: they are blocked when nothing can move).
+//
+// A check goroutine may OUTLIVE the pipeline call it belongs to (a runner that
+// answers the command before every check has finished). Such calls are
+// recorded (barrier.outlived) and finished under one of two policies, both
+// deterministic:
+//
+//   - stragglersFinishAfterCommand: they are released, in rank order, right
+//     after the call returned and before the driver issues the next command;
+//   - stragglersFinishLast: they stay parked while the message goes on and are
+//     released when the message is finished (after Commit/Abort) - or earlier,
+//     one at a time, whenever the pipeline is blocked with nothing else to
+//     release (a pipeline that waits for them somewhere, e.g. in Close).
+//
+// The driver runs the second policy only for executions in which the first one
+// saw a straggler, so the unchanged tree pays nothing for it. Nothing here is a
+// verdict: the outcomes of all executions are compared by the oracle.
+//
+// If quiescence is not reached although calls are parked (never seen; would
+// need a goroutine that spins or sits in a system call), the coordinator
+// releases in rank order anyway and the run is counted in `barrier_fallbacks`:
+// that affects which order was exercised, never a verdict.
 package c06
 
 import (
+	"bytes"
 	"runtime"
 	"sort"
 	"strings"
@@ -28,9 +51,24 @@ import (
 	"github.com/foxcpp/maddy/internal/zzverif/mx"
 )
 
+type stragglerPolicy int
+
+const (
+	stragglersFinishAfterCommand stragglerPolicy = iota
+	stragglersFinishLast
+)
+
+func (p stragglerPolicy) String() string {
+	if p == stragglersFinishLast {
+		return "unfinished-calls-finish-after-the-message"
+	}
+	return "unfinished-calls-finish-right-after-the-command"
+}
+
 type waiter struct {
 	check string
 	stage string
+	arg   string
 	rank  int
 	ch    chan struct{}
 }
@@ -39,21 +77,29 @@ type barrier struct {
 	mu        sync.Mutex
 	rank      map[string]int
 	waiting   []*waiter
-	groups    []string // completion order of every group with >= 2 members, e.g. "rcpt:C1<C0"
+	held      []*waiter // stragglers kept parked (stragglersFinishLast)
+	groups    []string  // completion order of every group with >= 2 members, e.g. "rcpt:C1<C0"
 	fallbacks int
 	maxGroup  int
 	enabled   bool
+	policy    stragglerPolicy
+	command   string   // the pipeline call in progress (for outlived)
+	outlived  []string // "<stage> of <check> unfinished when <command> returned"
+	lateFin   int      // stragglers that finished only after the message was over
+	// groups of >= 2 calls of the connection/sender stage ordered during a later command (replay)
+	replayedGroups int
+	buf            []byte
 }
 
 func newBarrier(rank map[string]int) *barrier {
-	return &barrier{rank: rank, enabled: true}
+	return &barrier{rank: rank, enabled: true, buf: make([]byte, 64<<10)}
 }
 
 func (b *barrier) hook(p mx.CheckPoint) {
 	if b == nil || !b.enabled {
 		return
 	}
-	w := &waiter{check: p.Check, stage: p.Stage, rank: b.rank[p.Check], ch: make(chan struct{})}
+	w := &waiter{check: p.Check, stage: p.Stage, arg: p.Arg, rank: b.rank[p.Check], ch: make(chan struct{})}
 	b.mu.Lock()
 	b.waiting = append(b.waiting, w)
 	b.mu.Unlock()
@@ -61,70 +107,116 @@ func (b *barrier) hook(p mx.CheckPoint) {
 }
 
 // around runs fn (one pipeline call) with a coordinator that orders the completions.
-func (b *barrier) around(fn func()) {
+func (b *barrier) around(command string, fn func()) {
 	if b == nil || !b.enabled {
 		fn()
 		return
 	}
-	// goroutines of the previous call (its coordinator, the last released check goroutine) may
-	// still be exiting: wait until the count is quiet before taking the base line
-	prev, quiet := runtime.NumGoroutine(), 0
-	for spins := 0; quiet < 30 && spins < 100000; spins++ {
-		runtime.Gosched()
-		if n := runtime.NumGoroutine(); n == prev {
-			quiet++
-		} else {
-			prev, quiet = n, 0
-		}
-	}
-	base := prev + 1 // + the coordinator itself
+	b.mu.Lock()
+	b.command = command
+	b.mu.Unlock()
 	done := make(chan struct{})
 	exited := make(chan struct{})
-	go b.coordinate(base, done, exited)
+	go b.coordinate(done, exited)
 	fn()
 	close(done)
 	<-exited
 }
 
-func (b *barrier) coordinate(base int, done, exited chan struct{}) {
-	defer close(exited)
-	stable, idle := 0, 0
+func closed(ch chan struct{}) bool {
+	if ch == nil {
+		return false
+	}
+	select {
+	case <-ch:
+		return true
+	default:
+		return false
+	}
+}
+
+// othersBlocked reports whether every goroutine except the caller is blocked (not running, not
+// runnable, not in a system call). Goroutines of the Go runtime itself are ignored.
+func (b *barrier) othersBlocked() bool {
+	var n int
 	for {
-		select {
-		case <-done:
-			// nothing may be left parked when the pipeline call has returned
-			b.mu.Lock()
-			for _, w := range b.waiting {
-				close(w.ch)
-			}
-			b.waiting = nil
-			b.mu.Unlock()
-			return
-		default:
+		n = runtime.Stack(b.buf, true)
+		if n < len(b.buf) {
+			break
 		}
-		b.mu.Lock()
-		nw := len(b.waiting)
-		b.mu.Unlock()
-		active := runtime.NumGoroutine() - base
-		if nw > active {
-			// parked calls are live goroutines above the base line by definition: the base line
-			// was taken while an unrelated goroutine was still exiting
-			base -= nw - active
-			active = nw
-		}
-		if nw > 0 && nw == active {
-			stable++
+		b.buf = make([]byte, 2*len(b.buf))
+	}
+	dump := b.buf[:n]
+	first := true
+	for len(dump) > 0 {
+		var block []byte
+		if i := bytes.Index(dump, []byte("\n\ngoroutine ")); i >= 0 {
+			block, dump = dump[:i], dump[i+2:]
 		} else {
-			stable = 0
+			block, dump = dump, nil
 		}
-		idle++
-		fallback := nw > 0 && idle > 20000
-		if stable >= 12 || fallback {
-			b.release(fallback)
-			stable, idle = 0, 0
+		if first {
+			first = false // the caller itself
 			continue
 		}
-		if idle > 400 {
+		nl := bytes.IndexByte(block, '\n')
+		hdr := block
+		if nl >= 0 {
+			hdr = block[:nl]
+		}
+		lb, rb := bytes.IndexByte(hdr, '['), bytes.LastIndexByte(hdr, ']')
+		if !bytes.HasPrefix(hdr, []byte("goroutine ")) || lb < 0 || rb < lb {
+			return false // not understood: do not claim quiescence
+		}
+		state := string(hdr[lb+1 : rb])
+		if i := strings.IndexByte(state, ','); i >= 0 {
+			state = state[:i]
+		}
+		switch state {
+		case "running", "runnable", "syscall", "copystack", "preempted":
+		default:
+			continue
+		}
+		if bytes.Contains(block, []byte("\ncreated by runtime.")) || bytes.Contains(block, []byte("os/signal.signal_recv")) {
+			continue
+		}
+		return false
+	}
+	return true
+}
+
+type settled int
+
+const (
+	allBlocked settled = iota
+	callReturned
+	gaveUp
+)
+
+// settle waits until the goroutines that were just released have got as far as they can: the
+// pipeline call returned (done closed), or everything is blocked again.
+func (b *barrier) settle(done chan struct{}) settled {
+	for polls := 0; ; polls++ {
+		if closed(done) {
+			return callReturned
+		}
+		if polls < 3 {
+			runtime.Gosched()
+			continue
+		}
+		if b.othersBlocked() {
+			if closed(done) {
+				return callReturned
+			}
+			return allBlocked
+		}
+		if polls > 60000 {
+			b.mu.Lock()
+			b.fallbacks++
+			b.mu.Unlock()
+			return gaveUp
+		}
+		if polls > 200 {
 			time.Sleep(20 * time.Microsecond)
 		} else {
 			runtime.Gosched()
@@ -132,7 +224,55 @@ func (b *barrier) coordinate(base int, done, exited chan struct{}) {
 	}
 }
 
-func (b *barrier) release(fallback bool) {
+func (b *barrier) coordinate(done, exited chan struct{}) {
+	defer close(exited)
+	last, stable, busy, polls := -1, 0, 0, 0
+	for {
+		if closed(done) {
+			b.afterReturn()
+			return
+		}
+		b.mu.Lock()
+		nw, nh := len(b.waiting), len(b.held)
+		b.mu.Unlock()
+		if nw+nh > 0 && nw+nh == last {
+			stable++
+		} else {
+			last, stable = nw+nh, 0
+		}
+		if nw+nh > 0 && stable >= 3 {
+			stable = 0
+			quiet := b.othersBlocked()
+			if closed(done) {
+				continue // the driver goroutine is blocked in around(), not in the pipeline
+			}
+			fallback := false
+			if !quiet && nw > 0 {
+				busy++
+				fallback = busy > 20000
+			}
+			if quiet || fallback {
+				busy, polls = 0, 0
+				if nw > 0 {
+					b.releaseGroup(done, fallback)
+				} else {
+					// the pipeline call is blocked and only held stragglers are left: it waits for one of them
+					b.releaseHeld(done, 1)
+				}
+				continue
+			}
+		}
+		polls++
+		if polls > 400 {
+			time.Sleep(20 * time.Microsecond)
+		} else {
+			runtime.Gosched()
+		}
+	}
+}
+
+// releaseGroup releases the parked calls in rank order, one at a time.
+func (b *barrier) releaseGroup(done chan struct{}, fallback bool) {
 	b.mu.Lock()
 	ws := b.waiting
 	b.waiting = nil
@@ -142,21 +282,8 @@ func (b *barrier) release(fallback bool) {
 	b.mu.Unlock()
 	sort.SliceStable(ws, func(i, j int) bool { return ws[i].rank < ws[j].rank })
 	var names []string
-	for i, w := range ws {
-		before := runtime.NumGoroutine()
-		close(w.ch)
+	for _, w := range ws {
 		names = append(names, w.check)
-		if i == len(ws)-1 {
-			break // the pipeline continues (and may start the next group) once the last one is done
-		}
-		// wait for the released goroutine to merge its result and exit
-		for spins := 0; runtime.NumGoroutine() >= before && spins < 200000; spins++ {
-			if spins > 2000 {
-				time.Sleep(10 * time.Microsecond)
-			} else {
-				runtime.Gosched()
-			}
-		}
 	}
 	if len(ws) >= 2 {
 		b.mu.Lock()
@@ -164,7 +291,90 @@ func (b *barrier) release(fallback bool) {
 		if len(ws) > b.maxGroup {
 			b.maxGroup = len(ws)
 		}
+		if (ws[0].stage == "conn" || ws[0].stage == "sender") && b.command != "MAIL" {
+			b.replayedGroups++
+		}
 		b.mu.Unlock()
+	}
+	for i, w := range ws {
+		close(w.ch)
+		if i == len(ws)-1 {
+			break // the pipeline continues (and may start the next group) once the last one is done
+		}
+		// let the released goroutine merge its result and exit - and the pipeline go on, if it does
+		// not wait for the others
+		if b.settle(done) == callReturned {
+			// the call returned while members of the group are still parked: stragglers
+			b.mu.Lock()
+			b.waiting = append(append([]*waiter(nil), ws[i+1:]...), b.waiting...)
+			b.mu.Unlock()
+			return
+		}
+	}
+}
+
+// afterReturn deals with the calls that are still parked when the pipeline call has returned.
+func (b *barrier) afterReturn() {
+	b.mu.Lock()
+	ws := b.waiting
+	b.waiting = nil
+	for _, w := range ws {
+		what := w.stage
+		if w.arg != "" && w.stage == "rcpt" {
+			what += " " + w.arg
+		}
+		b.outlived = append(b.outlived, what+" call of "+w.check+" unfinished when "+b.command+" returned")
+	}
+	sort.SliceStable(ws, func(i, j int) bool { return ws[i].rank < ws[j].rank })
+	if b.policy == stragglersFinishLast {
+		b.held = append(b.held, ws...)
+		b.mu.Unlock()
+		return
+	}
+	b.mu.Unlock()
+	for _, w := range ws {
+		close(w.ch)
+		b.settle(nil)
+	}
+}
+
+// releaseHeld releases up to n held stragglers (n <= 0: all) in rank order, one at a time.
+func (b *barrier) releaseHeld(done chan struct{}, n int) int {
+	released := 0
+	for n <= 0 || released < n {
+		b.mu.Lock()
+		if len(b.held) == 0 {
+			b.mu.Unlock()
+			break
+		}
+		sort.SliceStable(b.held, func(i, j int) bool { return b.held[i].rank < b.held[j].rank })
+		w := b.held[0]
+		b.held = b.held[1:]
+		b.mu.Unlock()
+		close(w.ch)
+		released++
+		if b.settle(done) == callReturned {
+			break
+		}
+	}
+	return released
+}
+
+// finish is called by the driver when the message is over: nothing may stay parked.
+func (b *barrier) finish() {
+	if b == nil || !b.enabled {
+		return
+	}
+	n := b.releaseHeld(nil, 0)
+	b.mu.Lock()
+	b.lateFin += n
+	// calls parked outside any around() cannot exist (the driver wraps every pipeline call); be safe
+	ws := b.waiting
+	b.waiting = nil
+	b.mu.Unlock()
+	for _, w := range ws {
+		close(w.ch)
+		b.settle(nil)
 	}
 }
 
